@@ -593,6 +593,7 @@ pub struct Blk {
     pub live: bool,
     pub raw: bool, // obtained through alloc_layout / Allocator API: may be passed to afree/agrow/ashrink
     pub expected: Vec<u8>,
+    pub kept_by_failed_init: bool, // allocated and kept by an initializer that then returned Err (C11)
 }
 
 pub struct Out {
@@ -810,12 +811,15 @@ impl<const M: usize> Exec<M> {
             for (i, b) in self.blocks.iter().enumerate() {
                 if b.live && b.size > 0 && ptr < b.ptr + b.size && b.ptr < ptr + size {
                     let d = format!("new={}+{} old#{}={}+{}", hex(ptr), size, i, hex(b.ptr), b.size);
+                    if b.kept_by_failed_init {
+                        self.fail("C11", "kept-block-reused-after-failed-init", d.clone());
+                    }
                     self.fail("C01", "overlap", d);
                     break;
                 }
             }
         }
-        self.blocks.push(Blk { ptr, size, align, live: true, raw, expected });
+        self.blocks.push(Blk { ptr, size, align, live: true, raw, expected, kept_by_failed_init: false });
         self.blocks.len() - 1
     }
 
@@ -1242,9 +1246,24 @@ impl<const M: usize> Exec<M> {
                         if types::drops_of(tok_id) != 1 {
                             self.fail("C11", "error-duplicated", format!("drops={}", types::drops_of(tok_id)));
                         }
+                        let mut kept_ids = vec![];
                         for (ip, s, a) in kept_ok {
                             let id = self.add_block(ip, s, a, true, vec![]);
                             self.fill_block(id);
+                            self.blocks[id].kept_by_failed_init = true;
+                            kept_ids.push(id);
+                        }
+                        // C11: what the failed initializer allocated and kept is still allocated space of the arena
+                        // (the rewind must not hand it back): every kept block lies inside an iterated slice
+                        if !kept_ids.is_empty() {
+                            if let Some(o) = self.observe() {
+                                for id in kept_ids {
+                                    let (bp, bs) = (self.blocks[id].ptr, self.blocks[id].size);
+                                    if bs > 0 && !o.it.iter().any(|(p, l)| *p <= bp && bp + bs <= p + l) {
+                                        self.fail("C11", "kept-block-released-by-rewind", format!("block={}+{} it={:?}", hex(bp), bs, o.it.iter().map(|(p, l)| format!("{}+{}", hex(*p), l)).collect::<Vec<_>>()));
+                                    }
+                                }
+                            }
                         }
                         if inner.iter().all(|i| matches!(i, Inner::Release(..))) || inner.is_empty() {
                             // only when nothing was kept: the slot must be reusable
@@ -1719,6 +1738,19 @@ impl<const M: usize> Exec<M> {
             Op::New { cap, .. } => *cap > ISIZE_MAX + 1 - M,
             _ => false,
         };
+        // C19, "cannot be ... satisfied": the harness allocator refuses every block above galloc::HUGE, so a request of more
+        // than twice that can never be served from memory the arena holds: Err from the fallible flavour, a panic from the
+        // infallible one, never a pointer (which would claim memory that was not reserved)
+        let unsatisfiable = match op {
+            Op::Alloc { sz, .. } | Op::AAlloc { sz, .. } | Op::SendAlloc { sz, .. } | Op::AGrow { sz, .. } => *sz > 2 * galloc::HUGE,
+            _ => false,
+        };
+        if unsatisfiable {
+            let ok = if fallible { matches!(res, Res::Err) } else { matches!(res, Res::Panic) };
+            if !ok {
+                self.fail("C19", "unsatisfiable-size-not-refused-properly", format!("{} fallible={} res={}", op.to_text(), fallible, res.text()));
+            }
+        }
         if impossible {
             let ok = if fallible { matches!(res, Res::Err) } else { matches!(res, Res::Panic) };
             if !ok {
